@@ -1,2 +1,914 @@
-// Package c17 decides C17 (see DESIGN.md section 4). Not built yet.
+// Package c17 decides C17 (builds are reproducible).
+//
+// spec/Build.tla (on top of spec/Instances.tla) is an implementation-shaped
+// model of every container of the build pipeline whose iteration order reaches
+// the emitted JavaScript: listed file order and Sources.Sort, the session's map
+// of sources and GetSortedSources, the sources and archives a session keeps
+// from commands built earlier, Collector.Scan/Finish (a range over a Go map),
+// the instance ids, the import list, the escaping-variable map.  TLC checks
+// "Output is a function of (sources, options)" on an exhaustive family of small
+// programs for the code as it is (expected to fail: the order-sensitive paths
+// are emitted as witness shapes), for the repaired variant (must hold) and for
+// variants with one sort removed (model mutants).
+//
+// This package binds the model to the real compiler: every witness shape and a
+// seeded family of larger programs (generic skeleton chosen by TLC from
+// VERIF_SEED digit strings, decorated with closures, anonymous types, method
+// expressions, several files ...) is built many times in FRESH compiler
+// processes x listed file permutations x minify on/off x earlier commands in
+// the same session.  sha256 of out.js and out.js.map must be one value per
+// (program, options); the real instance orders must be final orders of the
+// model; differences are classified through the model's prediction.
 package c17
+
+import (
+	"crypto/sha256"
+	"encoding/hex"
+	"encoding/json"
+	"fmt"
+	"math/rand"
+	"os"
+	"path/filepath"
+	"sort"
+	"strings"
+	"sync"
+	"time"
+
+	"verif/core"
+	"verif/gjs"
+	"verif/props/c04"
+	"verif/reg"
+	"verif/tlcx"
+)
+
+func init() { reg.Register("C17", "exploration", Run) }
+
+// classifier keys
+const (
+	keyF6           = "instance_ids_depend_on_package_map_order"
+	keySession      = "earlier_command_in_session_shares_generic_package"
+	keySameIDs      = "output_differs_with_equal_instance_ids"
+	keyListing      = "listed_file_order_changes_output"
+	keyUnrelated    = "unrelated_earlier_command_changes_output"
+	keyIDsUnpred    = "instance_ids_vary_where_the_model_is_deterministic"
+	keySessUnpred   = "earlier_command_changes_output_unpredicted_by_model"
+	keyOutcomeVaries = "build_outcome_varies"
+)
+
+var allNd = Nondet{Files: true, Discovery: true, Esc: true, Session: true}
+
+type modelExpect struct {
+	run      ModelRun
+	violated string // "" = must complete; else the invariant that must be reported violated
+	out      *ModelOut
+	err      error
+}
+
+// Run is the C17 check.
+func Run(c *core.Ctx, pool *gjs.Pool) {
+	if rd := os.Getenv("VERIF_REPLAY"); rd != "" {
+		replay(c, rd)
+		return
+	}
+	c.Assumef("reproducibility is decided by run-to-run equality of sha256(out.js) and sha256(out.js.map) of builds made by the compiler of the working tree in fresh processes; Go re-draws the map iteration order per process and per range statement, so repeated builds SAMPLE the nondeterminism that Build.tla enumerates (detection is probabilistic, see coverage.detection)")
+	c.Assumef("programs are rendered from the shapes of Build.tla / Instances.tla (generic functions and struct types with a method in packages a, b, c; roots in non-generic code; one or two files per package) and decorated with seeded non-generic code; the build cache is off; the output path has the same base name in every build")
+	c.Assumef("the earlier command of a session is modelled with its own nondeterminism resolved canonically; `gopherjs install e m` is reproduced by BuildProject+WriteCommandPackage of e, then of m, in one build.Session")
+	rng := rand.New(rand.NewSource(c.Seed))
+	thorough := c.Thorough()
+
+	// ------------------------------------------------------------------
+	// 1. the model, checked by TLC
+	nFam := c.Pick(2, 3) // declarations of the families that are explored with every kind of input nondeterminism
+	code := CodeSwitches()
+	repaired := code
+	repaired.Isolated = true
+	long := time.Duration(c.Pick(8, 25)) * time.Minute
+	exp := []*modelExpect{
+		// the code as it is, Collector.Finish ranges over a map: enumerate the order-sensitive shapes
+		{run: ModelRun{Name: "finish", Family: "pass", Bnd: PassBounds(3, "m", "a"), Sorted: false, Sw: code,
+			Invs: []string{"BSound", "BConfluent", "BSeenOK", "BEmit"}, Workers: 4, Timeout: long}},
+		// the code as it is, another command was built earlier in the session
+		{run: ModelRun{Name: "session", Family: "pass", Bnd: PassBounds(nFam, "m", "a"), Sorted: true, Sw: code, Nd: Nondet{Session: true},
+			Invs: []string{"BSeenOK", "BEmit"}, Workers: 3, Timeout: long}},
+		// the repaired variant under every kind of nondeterminism: Output is a function of the sources
+		{run: ModelRun{Name: "repaired", Family: "pass", Bnd: PassBounds(nFam, "m", "a"), Sorted: true, Sw: repaired, Nd: allNd,
+			Invs: []string{"Reproducible", "NoDangling", "BSound", "BConfluent", "BSeenOK"}, Workers: 3, Timeout: long}},
+		// the same sort removed from the list of imports only: still a function (source order of sorted files)
+		{run: ModelRun{Name: "mutant_sortImports", Family: "pass", Bnd: PassBounds(nFam, "m", "a"), Sorted: true, Sw: without(repaired, "sortImports"), Nd: allNd,
+			Invs: []string{"Reproducible", "NoDangling"}, Workers: 3, Timeout: long}},
+	}
+	// one repair / sort removed from the repaired variant (model mutants): the property must fail.
+	// One declaration suffices for these paths (two roots on one generic function).
+	for _, m := range []string{"sortFiles", "sortPkgs", "sortEsc", "sortImports+sortFiles", "isolated"} {
+		sw := repaired
+		for _, part := range strings.Split(m, "+") {
+			sw = without(sw, part)
+		}
+		exp = append(exp, &modelExpect{violated: "Reproducible", run: ModelRun{Name: "mutant_" + m, Family: "pass", Bnd: PassBounds(1, "m", "a"),
+			Sorted: true, Sw: sw, Nd: allNd, Invs: []string{"Reproducible"}, Workers: 2, Timeout: long}})
+	}
+	// the unsorted range of Collector.Finish on the shape of defect F6 (three packages are needed)
+	exp = append(exp, &modelExpect{violated: "Reproducible", run: ModelRun{Name: "mutant_sortedFinish", Family: "gen", Bnd: ScriptBounds(), Given: []Program{c04.F6Witness()},
+		Sorted: false, Sw: repaired, Nd: allNd, Invs: []string{"Reproducible"}, Workers: 2, Timeout: long}})
+	if thorough {
+		exp = append(exp, &modelExpect{run: ModelRun{Name: "finish_gen", Family: "gen", Bnd: GenBounds(3), Sorted: false, Sw: code,
+			Invs: []string{"BSound", "BConfluent", "BSeenOK", "BEmit"}, Workers: 4, Timeout: long}})
+	}
+	runModels(c, exp, 3)
+	if c.InfraErr != nil {
+		return
+	}
+	table := map[string]string{}
+	for _, e := range exp {
+		got := "holds"
+		if e.out.Res.Violated != "" {
+			got = "violated:" + e.out.Res.Violated
+		}
+		table[e.run.Name] = got
+		want := "holds"
+		if e.violated != "" {
+			want = "violated:" + e.violated
+		}
+		if got != want || (e.violated == "" && !e.out.Res.Completed) {
+			c.Infra(fmt.Errorf("Build.tla (%s): expected %s, TLC says %s (completed=%v timeout=%v)\n%s", e.run.Name, want, got, e.out.Res.Completed, e.out.Res.TimedOut, tlcx.Tail(e.out.Res.Output, 40)))
+			return
+		}
+	}
+	c.Set("model_configurations", table)
+	c.Phase("tlc_model")
+
+	// witnesses
+	finish, session := exp[0].out, exp[1].out
+	witF6 := SelectWitnesses(finish.Wits, c.Pick(6, 16), "witness:finish", func(w *Wit) bool { return len(w.Early) == 0 })
+	if thorough {
+		witF6 = append(witF6, SelectWitnesses(exp[len(exp)-1].out.Wits, 10, "witness:finish_gen", func(w *Wit) bool { return supported(Program{Decls: w.Decls}) })...)
+	}
+	witDang := SelectWitnesses(session.Wits, c.Pick(2, 6), "witness:session_dangling", func(w *Wit) bool { return w.Dangling })
+	witShift := SelectWitnesses(session.Wits, c.Pick(2, 6), "witness:session_ids_shift", func(w *Wit) bool { return !w.Dangling })
+	c.Set("model_witness_lines_finish", len(finish.Wits))
+	c.Set("model_witness_programs_finish", countPrograms(finish.Wits))
+	c.Set("model_witness_lines_session", len(session.Wits))
+	c.Set("model_witness_programs_session_dangling", countWits(session.Wits, true))
+	c.Set("model_witness_programs_session_ids_shift", countWits(session.Wits, false))
+	if len(witF6) == 0 || len(witDang) == 0 {
+		c.Infra(fmt.Errorf("Build.tla emitted no witness of the order-sensitive paths of the pinned tree (finish %d, session %d lines)", len(finish.Wits), len(session.Wits)))
+		return
+	}
+	f6 := c04.F6Witness()
+	scen := []*Scenario{{Prog: f6, RFile: []int{1, 1}, Origin: "witness:F6"}}
+	scen = append(scen, witF6...)
+	scen = append(scen, witDang...)
+	scen = append(scen, witShift...)
+
+	// ------------------------------------------------------------------
+	// 2. seeded skeletons: TLC builds the programs from VERIF_SEED digit strings
+	nSeed := c.Pick(14, 160)
+	codes := make([][]int, nSeed*3)
+	for i := range codes {
+		codes[i] = make([]int, 48)
+		for j := range codes[i] {
+			codes[i][j] = rng.Intn(100000)
+		}
+	}
+	sm, err := RunModel(c, ModelRun{Name: "seeded", Family: "gen", Bnd: ScriptBounds(), Codes: codes, Sorted: true, Sw: code, EmitAll: true,
+		Invs: []string{"BSound", "BConfluent", "BSeenOK", "BEmit"}, Workers: 4, Timeout: long})
+	if err != nil || !tlcx.MustComplete(c, sm.Res, err, "Build.tla (seeded skeletons)") {
+		if err != nil {
+			c.Infra(err)
+		}
+		return
+	}
+	seenP := map[string]bool{}
+	nSeeded := 0
+	for _, f := range sm.Fins {
+		p := Program{Decls: f.Decls, Roots: f.Roots}
+		k := p.Key()
+		if seenP[k] || !supported(p) || nSeeded >= nSeed {
+			continue
+		}
+		seenP[k] = true
+		nSeeded++
+		s := &Scenario{Prog: p, Origin: "seeded", RFile: make([]int, len(p.Roots))}
+		// layout: split the roots of a package over two files now and then
+		first := map[string]bool{}
+		for i, r := range p.Roots {
+			s.RFile[i] = 1
+			if first[r.Pkg] && rng.Intn(2) == 0 {
+				s.RFile[i] = 2
+			}
+			first[r.Pkg] = true
+		}
+		// an earlier command that instantiates one of the declarations with another ground type
+		var cands []int
+		for i, d := range p.Decls {
+			if d.Kind == "func" || d.Kind == "type" {
+				cands = append(cands, i+1)
+			}
+		}
+		j := cands[rng.Intn(len(cands))]
+		var args []*Term
+		for range p.Decls[j-1].Cons {
+			args = append(args, &Term{Tag: "g", Name: "I16", Subs: []*Term{}})
+		}
+		s.Early = []Root{{Pkg: "e", Tgt: j, Args: args, Style: "i"}}
+		scen = append(scen, s)
+	}
+	c.Set("seeded_codes", len(codes))
+	c.Set("seeded_programs", nSeeded)
+	for i, s := range scen {
+		s.Deco = c.Seed*1000 + int64(i)
+	}
+	c.Phase("tlc_seeded")
+
+	// ------------------------------------------------------------------
+	// 3. the model's prediction for every scenario (keyed run, every final state)
+	if !predict(c, scen, long) {
+		return
+	}
+	c.Phase("tlc_predict")
+	c.Set("checker_cmd", "tlc Build (SPECIFICATION BSpec): INVARIANTS BSound BConfluent BSeenOK BEmit on the exhaustive pass-through family with the unsorted range of Collector.Finish and with an earlier command in the session (witness enumeration); INVARIANTS Reproducible NoDangling on the repaired variant under every input nondeterminism (must hold) and on the variants with one repair/sort removed (must fail, except sortImports alone); keyed run with every final state for the scenarios that are built")
+	c.Set("exhaustive", true)
+
+	// ------------------------------------------------------------------
+	// 4. bind to the real compiler
+	ck := &checker{c: c}
+	c.Set("programs", len(scen))
+	c.ParMap(len(scen), func(i int) { ck.check(scen[i], false) })
+	c.Phase("bind")
+	ck.finish()
+	c.Set("rule", "TLC enumerates every program of the pass-through family (<= 3 generic functions in packages a, b, c, each calling at most one other with its own type parameter; 1-2 roots in main or a) with every resolution of Collector.Finish's range, and the family with <= "+fmt.Sprint(nFam)+" declarations with every layout (<= 2 files), listed file order, discovery order, escaping-variable order and earlier command; the witness shapes it emits and VERIF_SEED-selected larger skeletons (decorated with seeded non-generic code) are rendered as Go modules; each is built coverage.builds_per_scenario times in fresh processes over {directory build, listed files in every permutation} x {minify off, on} x {no, unrelated, generic-sharing earlier command}; an evaluation = one build whose hashes were compared inside its (program, options) group; distinct = distinct (program, options, variant) combinations built at least twice; exhaustive refers to the model families, not to the sampled map orders of the real compiler")
+}
+
+func without(sw Switches, name string) Switches {
+	switch name {
+	case "sortFiles":
+		sw.SortFiles = false
+	case "sortPkgs":
+		sw.SortPkgs = false
+	case "sortEsc":
+		sw.SortEsc = false
+	case "sortImports":
+		sw.SortImports = false
+	case "isolated":
+		sw.Isolated = false
+	}
+	return sw
+}
+
+func countPrograms(ws []Wit) int {
+	m := map[string]bool{}
+	for _, w := range ws {
+		m[progKey(w.Decls, w.Roots)] = true
+	}
+	return len(m)
+}
+
+func countWits(ws []Wit, dangling bool) int {
+	m := map[string]bool{}
+	for _, w := range ws {
+		if w.Dangling == dangling {
+			b, _ := json.Marshal(w.Early)
+			m[progKey(w.Decls, w.Roots)+string(b)] = true
+		}
+	}
+	return len(m)
+}
+
+// runModels runs the configurations, par at a time.
+func runModels(c *core.Ctx, exp []*modelExpect, par int) {
+	sem := make(chan struct{}, par)
+	var wg sync.WaitGroup
+	for _, e := range exp {
+		wg.Add(1)
+		sem <- struct{}{}
+		go func(e *modelExpect) {
+			defer wg.Done()
+			defer func() { <-sem }()
+			e.out, e.err = RunModel(c, e.run)
+		}(e)
+	}
+	wg.Wait()
+	for _, e := range exp {
+		if e.err != nil || e.out == nil || e.out.Res == nil {
+			c.Infra(fmt.Errorf("Build.tla (%s): %v", e.run.Name, e.err))
+			return
+		}
+		if e.out.Res.TimedOut || e.out.Res.Violated == "error" {
+			c.Infra(fmt.Errorf("Build.tla (%s): TLC failed (timeout=%v)\n%s", e.run.Name, e.out.Res.TimedOut, tlcx.Tail(e.out.Res.Output, 40)))
+			return
+		}
+	}
+}
+
+// predict runs the model on the scenarios (given mode) and records the final
+// instance orders and what the earlier command does to the output.
+func predict(c *core.Ctx, scen []*Scenario, timeout time.Duration) bool {
+	var given []Program
+	var lays []Layout
+	for _, s := range scen {
+		given = append(given, s.Prog)
+		l := Layout{RFile: s.RFile, Earlies: [][]Root{{}}}
+		if len(s.Early) > 0 {
+			l.Earlies = append(l.Earlies, s.Early)
+		}
+		lays = append(lays, l)
+	}
+	b := ScriptBounds()
+	m, err := RunModel(c, ModelRun{Name: "predict", Family: "gen", Bnd: b, Given: given, Layouts: lays, Sorted: false, Sw: CodeSwitches(), EmitAll: true,
+		Invs: []string{"BSeenOK", "BEmit"}, Workers: 4, Timeout: timeout})
+	if err != nil || !tlcx.MustComplete(c, m.Res, err, "Build.tla (prediction for the scenarios)") {
+		if err != nil {
+			c.Infra(err)
+		}
+		return false
+	}
+	for _, s := range scen {
+		s.Orders = map[string]bool{}
+		s.EarlySame = true
+	}
+	for _, f := range m.Fins {
+		if f.Cid < 1 || f.Cid > len(scen) {
+			c.Infra(fmt.Errorf("Build.tla (predict): final state of unknown program %d", f.Cid))
+			return false
+		}
+		s := scen[f.Cid-1]
+		if len(f.Early) == 0 {
+			s.Orders[ordersKey(s.Prog.Decls, f.Ord)] = true
+		} else {
+			if !f.Same {
+				s.EarlySame = false
+			}
+			if f.Dangling {
+				s.EarlyDang = true
+			}
+		}
+	}
+	for i, s := range scen {
+		if len(s.Orders) == 0 {
+			c.Infra(fmt.Errorf("Build.tla (predict): no final state for scenario %d (%s): the model rejects the program %s", i+1, s.Origin, s.Prog.Key()))
+			return false
+		}
+	}
+	return true
+}
+
+// ---------------------------------------------------------------------------
+// binding
+
+type build struct {
+	Group   string `json:"group"`   // dir|files + minify
+	Variant string `json:"variant"` // plain | unrelated | early | list:<files>
+	JS      string `json:"js_sha256"`
+	Map     string `json:"map_sha256"`
+	Sets    string `json:"instance_orders"`
+	Err     string `json:"err,omitempty"`
+	out     string
+	sets    map[string][]string
+}
+
+type checker struct {
+	c  *core.Ctx
+	mu sync.Mutex
+	// counters
+	builds, groups, ordersOK, ordersDrift, sessDrift, realVaries, guardDiscards, buildFailures int
+	f6Builds, f6Minority                                                                     int
+	driftSamples                                                                             []string
+	perScenario                                                                              map[string]int
+}
+
+func sha(path string) string {
+	b, err := os.ReadFile(path)
+	if err != nil {
+		return ""
+	}
+	h := sha256.Sum256(b)
+	return hex.EncodeToString(h[:])
+}
+
+func perms(l []string) [][]string {
+	if len(l) <= 1 {
+		return [][]string{append([]string{}, l...)}
+	}
+	var out [][]string
+	for i := range l {
+		rest := append(append([]string{}, l[:i]...), l[i+1:]...)
+		for _, p := range perms(rest) {
+			out = append(out, append([]string{l[i]}, p...))
+		}
+	}
+	return out
+}
+
+// plan lists the builds of one scenario: variant names per group.
+func (ck *checker) plan(s *Scenario, r Rendered, replaying bool) map[string][]string {
+	c := ck.c
+	witness := strings.HasPrefix(s.Origin, "witness")
+	nPlain := c.Pick(3, 6)
+	if witness {
+		nPlain = c.Pick(10, 24)
+	}
+	if replaying {
+		nPlain = 40
+	}
+	var dir []string
+	for i := 0; i < nPlain; i++ {
+		dir = append(dir, "plain")
+	}
+	dir = append(dir, "unrelated")
+	if r.Early != "" {
+		dir = append(dir, "early", "early")
+	}
+	var files []string
+	ps := perms(r.MainFiles)
+	reps := 2
+	if len(ps) > 1 {
+		reps = c.Pick(1, 2)
+	}
+	if replaying {
+		reps = 6
+	}
+	for i := 0; i < reps; i++ {
+		for _, p := range ps {
+			files = append(files, "list:"+strings.Join(p, ","))
+		}
+	}
+	return map[string][]string{"dir": dir, "files": files}
+}
+
+func (ck *checker) check(s *Scenario, replaying bool) {
+	c := ck.c
+	if len(s.RFile) != len(s.Prog.Roots) {
+		s.RFile = make([]int, len(s.Prog.Roots))
+		for i := range s.RFile {
+			s.RFile[i] = 1
+		}
+	}
+	r := Render(s)
+	dir, err := r.Prog.Materialise(c.Scratch)
+	if err != nil {
+		c.Infra(err)
+		return
+	}
+	defer os.RemoveAll(dir)
+	outRoot := dir + "-out"
+	defer os.RemoveAll(outRoot)
+	// guard: the reference toolchain accepts the commands and builds them reproducibly
+	if !ck.guard(s, dir, r) {
+		return
+	}
+	plan := ck.plan(s, r, replaying)
+	type jobT struct {
+		b   *build
+		job Job
+	}
+	var jobs []jobT
+	n := 0
+	for _, minify := range []bool{false, true} {
+		for _, mode := range []string{"dir", "files"} {
+			for _, v := range plan[mode] {
+				n++
+				b := &build{Group: fmt.Sprintf("%s minify=%v", mode, minify), Variant: v, out: filepath.Join(outRoot, fmt.Sprintf("b%03d", n), "out.js")}
+				j := Job{Dir: dir, Main: "vp", Out: b.out, Minify: minify, MapFile: true, Dump: true}
+				switch {
+				case v == "unrelated":
+					j.Before = []string{r.Unrelated}
+				case v == "early":
+					j.Before = []string{r.Early}
+				case strings.HasPrefix(v, "list:"):
+					j.Files = strings.Split(strings.TrimPrefix(v, "list:"), ",")
+				}
+				jobs = append(jobs, jobT{b, j})
+			}
+		}
+	}
+	// the builds of one scenario run one after the other (scenarios run in parallel)
+	for _, jb := range jobs {
+		res, err := RunChild(jb.job, 5*time.Minute)
+		if err != nil {
+			c.Infra(err)
+			return
+		}
+		jb.b.Err = firstLineOf(res.Err)
+		jb.b.JS, jb.b.Map, jb.b.sets = res.JSSum, res.MapSum, res.Sets
+		jb.b.Sets = setsKey(res.Sets, "vp")
+	}
+	var bs []*build
+	for _, jb := range jobs {
+		bs = append(bs, jb.b)
+	}
+	ck.mu.Lock()
+	ck.builds += len(bs)
+	if ck.perScenario == nil {
+		ck.perScenario = map[string]int{}
+	}
+	kind := "seeded"
+	if strings.HasPrefix(s.Origin, "witness") {
+		kind = "witness"
+	}
+	ck.perScenario[kind] = len(bs)
+	ck.mu.Unlock()
+	ck.evaluate(s, r, bs)
+}
+
+func firstLineOf(s string) string {
+	s = strings.TrimSpace(s)
+	if i := strings.Index(s, "\n\nOriginal stack"); i >= 0 {
+		s = s[:i]
+	}
+	if i := strings.Index(s, "\nDetailed AST"); i >= 0 {
+		s = s[:i]
+	}
+	s = strings.ReplaceAll(s, "\n", " ")
+	if len(s) > 300 {
+		s = s[:300]
+	}
+	return s
+}
+
+// guard builds the commands with the reference toolchain, twice; the program
+// must be legal Go and the reference build reproducible.
+func (ck *checker) guard(s *Scenario, dir string, r Rendered) bool {
+	c := ck.c
+	discard := func(why string) bool {
+		c.Add("spec_guard_discards", 1)
+		c.Sample(map[string]any{"discarded": s.Prog.Key(), "reason": tailStr(why, 400)})
+		return false
+	}
+	cmds := []string{dir}
+	if r.Early != "" {
+		cmds = append(cmds, filepath.Join(dir, "e"))
+	}
+	for _, d := range cmds {
+		var sums []string
+		for i := 0; i < 2; i++ {
+			bin := filepath.Join(d, fmt.Sprintf("native%d.bin", i))
+			res := gjs.NativeBuild(d, bin)
+			if res.TimedOut || res.Err != nil {
+				c.Infra(fmt.Errorf("reference toolchain: %v %s", res.Err, tailStr(res.Out, 300)))
+				return false
+			}
+			if res.ExitCode != 0 {
+				return discard("the reference toolchain rejects the program: " + res.Out)
+			}
+			sums = append(sums, sha(bin))
+			os.Remove(bin)
+		}
+		if sums[0] != sums[1] {
+			return discard("the reference toolchain's own builds differ")
+		}
+	}
+	return true
+}
+
+func hashOf(b *build) string { return b.JS + "/" + b.Map }
+
+func (ck *checker) report(s *Scenario, r Rendered, bs []*build, keys []string, summary string, a, b *build) {
+	files := r.Prog.ReplayFiles("prog")
+	sj, _ := json.MarshalIndent(s, "", " ")
+	files["scenario.json"] = string(sj) + "\n"
+	bj, _ := json.MarshalIndent(bs, "", " ")
+	files["builds.json"] = string(bj) + "\n"
+	if a != nil && b != nil {
+		files["diff.txt"] = fmt.Sprintf("build A: %s / %s  instance orders:\n%s\nbuild B: %s / %s  instance orders:\n%s\n%s", a.Group, a.Variant, a.Sets, b.Group, b.Variant, b.Sets, diffFiles(a.out, b.out, 40))
+	}
+	ck.c.Report(core.Case{Keys: keys, Summary: summary, Files: files})
+}
+
+// diffFiles shows the first differing lines of two outputs.
+func diffFiles(a, b string, max int) string {
+	ab, _ := os.ReadFile(a)
+	bb, _ := os.ReadFile(b)
+	al, bl := strings.Split(string(ab), "\n"), strings.Split(string(bb), "\n")
+	var sb strings.Builder
+	n := 0
+	for i := 0; i < len(al) || i < len(bl); i++ {
+		x, y := "<eof>", "<eof>"
+		if i < len(al) {
+			x = al[i]
+		}
+		if i < len(bl) {
+			y = bl[i]
+		}
+		if x != y {
+			if len(x) > 300 {
+				x = x[:300] + "..."
+			}
+			if len(y) > 300 {
+				y = y[:300] + "..."
+			}
+			fmt.Fprintf(&sb, "line %d\n  A: %s\n  B: %s\n", i+1, x, y)
+			n++
+			if n >= max {
+				break
+			}
+		}
+	}
+	return sb.String()
+}
+
+// evaluate compares the builds of one scenario group by group.
+func (ck *checker) evaluate(s *Scenario, r Rendered, bs []*build) {
+	c := ck.c
+	sensitive := len(s.Orders) > 1
+	groups := map[string][]*build{}
+	var gnames []string
+	for _, b := range bs {
+		if _, ok := groups[b.Group]; !ok {
+			gnames = append(gnames, b.Group)
+		}
+		groups[b.Group] = append(groups[b.Group], b)
+	}
+	for _, gn := range gnames {
+		g := groups[gn]
+		// build outcome
+		var failed, ok []*build
+		for _, b := range g {
+			if b.Err != "" {
+				failed = append(failed, b)
+			} else {
+				ok = append(ok, b)
+			}
+		}
+		if len(failed) > 0 {
+			// an earlier command may legitimately... no: every variant builds the same command
+			if len(ok) > 0 {
+				ck.report(s, r, g, []string{keyOutcomeVaries}, fmt.Sprintf("%s [%s]: %d of %d builds of the same sources fail (%s), the others succeed", s.Origin, gn, len(failed), len(g), failed[0].Err), failed[0], ok[0])
+			} else {
+				ck.mu.Lock()
+				ck.buildFailures++
+				if len(ck.driftSamples) < 4 {
+					ck.driftSamples = append(ck.driftSamples, "compiler rejects "+s.Prog.Key()+": "+failed[0].Err)
+				}
+				ck.mu.Unlock()
+			}
+			continue
+		}
+		c.Add("evaluations", len(g))
+		variants := map[string]bool{}
+		for _, b := range g {
+			variants[b.Variant] = true
+		}
+		for v := range variants {
+			c.Distinct(s.Key() + "|" + gn + "|" + v)
+		}
+		ck.mu.Lock()
+		ck.groups++
+		ck.mu.Unlock()
+		var base, early []*build
+		for _, b := range g {
+			if b.Variant == "early" {
+				early = append(early, b)
+			} else {
+				base = append(base, b)
+			}
+		}
+		// (a) within one instance order the bytes must be one value
+		byOrder := map[string]map[string]*build{}
+		var orders []string
+		for _, b := range base {
+			if byOrder[b.Sets] == nil {
+				byOrder[b.Sets] = map[string]*build{}
+				orders = append(orders, b.Sets)
+			}
+			if _, seen := byOrder[b.Sets][hashOf(b)]; !seen {
+				byOrder[b.Sets][hashOf(b)] = b
+			}
+		}
+		for _, o := range orders {
+			if len(byOrder[o]) > 1 {
+				var two []*build
+				for _, b := range byOrder[o] {
+					two = append(two, b)
+				}
+				sort.Slice(two, func(i, j int) bool { return two[i].out < two[j].out })
+				keys := []string{keySameIDs}
+				if fn := functionOfVariant(base, o); fn != "" {
+					keys = append([]string{fn}, keys...)
+				}
+				ck.report(s, r, g, keys, fmt.Sprintf("%s [%s]: builds of the same sources with the same instance ids differ: %d distinct outputs (e.g. variants %s / %s)", s.Origin, gn, len(byOrder[o]), two[0].Variant, two[1].Variant), two[0], two[1])
+			}
+		}
+		// (b) the instance orders themselves
+		inModel := 0
+		for _, o := range orders {
+			if s.Orders[o] {
+				inModel++
+			}
+		}
+		ck.mu.Lock()
+		if inModel == len(orders) {
+			ck.ordersOK++
+		} else {
+			ck.ordersDrift++
+			if len(ck.driftSamples) < 4 {
+				ck.driftSamples = append(ck.driftSamples, fmt.Sprintf("real instance order %q is none of the %d final orders of the model for %s", orders[0], len(s.Orders), s.Prog.Key()))
+			}
+		}
+		if sensitive && strings.HasPrefix(gn, "dir") {
+			// the majority order is the canonical one (packages visited in slot order)
+			cnt := map[string]int{}
+			for _, b := range base {
+				cnt[b.Sets]++
+			}
+			max := 0
+			for _, n := range cnt {
+				if n > max {
+					max = n
+				}
+			}
+			ck.f6Builds += len(base)
+			ck.f6Minority += len(base) - max
+		}
+		ck.mu.Unlock()
+		if len(orders) > 1 {
+			ck.mu.Lock()
+			ck.realVaries++
+			ck.mu.Unlock()
+			a, b := firstWith(base, orders[0]), firstWith(base, orders[1])
+			if sensitive && inModel == len(orders) {
+				ck.report(s, r, g, []string{keyF6}, fmt.Sprintf("%s [%s]: %d different instance numberings (and outputs) among %d builds of the same sources; the model predicts them through the range over the package map in Collector.Finish (%d final orders)", s.Origin, gn, len(orders), len(base), len(s.Orders)), a, b)
+			} else {
+				keys := []string{keyIDsUnpred}
+				if fn := orderFunctionOfVariant(base); fn != "" {
+					keys = append([]string{fn}, keys...)
+				}
+				ck.report(s, r, g, keys, fmt.Sprintf("%s [%s]: %d different instance numberings among %d builds of the same sources where the model has %d final order(s) (%d of the observed ones are final orders of the model)", s.Origin, gn, len(orders), len(base), len(s.Orders), inModel), a, b)
+			}
+		}
+		// (c) an earlier command in the session
+		if len(early) > 0 {
+			baseHashes := map[string]*build{}
+			for _, b := range base {
+				baseHashes[hashOf(b)] = b
+			}
+			var differs *build
+			for _, b := range early {
+				if baseHashes[hashOf(b)] == nil {
+					differs = b
+				}
+			}
+			switch {
+			case differs == nil:
+				if !s.EarlySame {
+					ck.mu.Lock()
+					ck.sessDrift++
+					if len(ck.driftSamples) < 4 {
+						ck.driftSamples = append(ck.driftSamples, "the model predicts that the earlier command changes the output, the real output is unchanged: "+s.Key())
+					}
+					ck.mu.Unlock()
+				}
+			case sensitive && s.EarlySame && len(orders) < len(s.Orders):
+				// the base builds did not sample every order of an order-sensitive program: not comparable
+				c.Add("session_not_comparable", 1)
+			case !s.EarlySame && foreignInstances(differs, base):
+				crash := ""
+				if obs := gjs.ClassifyNode(gjs.Node(differs.out, time.Minute, "", nil)); obs.End != "exit" {
+					crash = fmt.Sprintf("; the program built after the earlier command does not run: %s %s", obs.End, obs.Msg)
+				}
+				ck.report(s, r, g, []string{keySession}, fmt.Sprintf("%s [%s]: the output differs when another command that instantiates a generic declaration of a shared package was built earlier in the same session (model: dangling=%v)%s", s.Origin, gn, s.EarlyDang, crash), base[0], differs)
+			default:
+				ck.report(s, r, g, []string{keySessUnpred}, fmt.Sprintf("%s [%s]: the output differs after an earlier command in the same session where the model predicts no difference", s.Origin, gn), base[0], differs)
+			}
+		}
+	}
+	for _, b := range bs {
+		os.RemoveAll(filepath.Dir(b.out))
+	}
+}
+
+func firstWith(bs []*build, order string) *build {
+	for _, b := range bs {
+		if b.Sets == order {
+			return b
+		}
+	}
+	return nil
+}
+
+// foreignInstances: the sets of the build contain an instance that no base build has
+// (the earlier command's instantiation reached the later build's collector).
+func foreignInstances(b *build, base []*build) bool {
+	known := map[string]bool{}
+	for _, x := range base {
+		for p, l := range x.sets {
+			for _, i := range l {
+				known[p+" "+i] = true
+			}
+		}
+	}
+	for p, l := range b.sets {
+		for _, i := range l {
+			if !known[p+" "+i] {
+				return true
+			}
+		}
+	}
+	return false
+}
+
+// functionOfVariant: among the builds with the given instance order the hash is
+// determined by the variant and at least two variants differ: name the cause.
+func functionOfVariant(bs []*build, order string) string {
+	byVar := map[string]map[string]bool{}
+	for _, b := range bs {
+		if b.Sets != order {
+			continue
+		}
+		if byVar[b.Variant] == nil {
+			byVar[b.Variant] = map[string]bool{}
+		}
+		byVar[b.Variant][hashOf(b)] = true
+	}
+	return causeOf(byVar)
+}
+
+func orderFunctionOfVariant(bs []*build) string {
+	byVar := map[string]map[string]bool{}
+	for _, b := range bs {
+		if byVar[b.Variant] == nil {
+			byVar[b.Variant] = map[string]bool{}
+		}
+		byVar[b.Variant][b.Sets] = true
+	}
+	return causeOf(byVar)
+}
+
+func causeOf(byVar map[string]map[string]bool) string {
+	if len(byVar) < 2 {
+		return ""
+	}
+	for _, hs := range byVar {
+		if len(hs) != 1 {
+			return ""
+		}
+	}
+	listing, unrelated := false, false
+	for v := range byVar {
+		if strings.HasPrefix(v, "list:") {
+			listing = true
+		}
+		if v == "unrelated" {
+			unrelated = true
+		}
+	}
+	if listing {
+		return keyListing
+	}
+	if unrelated {
+		return keyUnrelated
+	}
+	return ""
+}
+
+func (ck *checker) finish() {
+	c := ck.c
+	c.Set("builds", ck.builds)
+	c.Set("builds_per_scenario", ck.perScenario)
+	c.Set("groups_compared", ck.groups)
+	c.Set("traces_validated_against_impl", ck.ordersOK)
+	c.Set("model_drift_orders", ck.ordersDrift)
+	c.Set("model_drift_session", ck.sessDrift)
+	c.Set("groups_whose_real_instance_order_varied", ck.realVaries)
+	c.Set("compiler_rejected_scenarios", ck.buildFailures)
+	if c.Get("spec_guard_discards") == 0 {
+		c.Set("spec_guard_discards", 0)
+	}
+	rate := 0.0
+	if ck.f6Builds > 0 {
+		rate = float64(ck.f6Minority) / float64(ck.f6Builds)
+	}
+	c.Set("detection", map[string]any{
+		"order_sensitive_builds":          ck.f6Builds,
+		"builds_with_a_minority_order":    ck.f6Minority,
+		"measured_divergence_rate":        float64(int(rate*1000)) / 1000,
+		"note": "a group of n builds of an order-sensitive program misses the divergence with probability about (1-p)^n + p^n, p = per-build rate of a non-majority order; all order-sensitive groups of a run must miss for the finding to go unnoticed",
+	})
+	if ck.ordersDrift+ck.sessDrift > 0 {
+		fmt.Printf("MODEL-DRIFT: %d groups whose real instance order is none of the model's final orders, %d scenarios whose session prediction did not show; e.g. %v\n", ck.ordersDrift, ck.sessDrift, ck.driftSamples)
+	} else if len(ck.driftSamples) > 0 {
+		fmt.Printf("note: %v\n", ck.driftSamples)
+	}
+}
+
+// replay re-decides one recorded scenario with more builds per group.
+func replay(c *core.Ctx, dir string) {
+	b, err := os.ReadFile(filepath.Join(dir, "scenario.json"))
+	if err != nil {
+		c.Infra(err)
+		return
+	}
+	var s Scenario
+	if err := json.Unmarshal(b, &s); err != nil {
+		c.Infra(err)
+		return
+	}
+	scen := []*Scenario{&s}
+	if !predict(c, scen, 10*time.Minute) {
+		return
+	}
+	ck := &checker{c: c}
+	ck.check(&s, true)
+	ck.finish()
+	c.Set("programs", 1)
+	c.Set("rule", "replay of one recorded scenario: 40 plain builds + variants per (mode, minify) group")
+}
